@@ -157,11 +157,11 @@ theorem badContext_false {d : Dec} (h : badContext d = false) : 0 ≤ d.outIndex
 
 /-- the opcodes that write through the cursor pass `test_context()` -/
 theorem fetchCase_context (l : Limits) (constraint : Bool) (pt : Nat) (d : Dec) (opc pos : Nat) (ps : List Nat) (b : Book) (ts : List (Bool × Nat))
-    (ho : opc = 33 ∨ opc = 59 ∨ opc = 56 ∨ opc = 35 ∨ opc = 36 ∨ opc = 37 ∨ opc = 38)
+    (ho : opc = 33 ∨ opc = 59 ∨ opc = 56 ∨ opc = 35 ∨ opc = 36 ∨ opc = 37 ∨ opc = 38 ∨ opc = 28 ∨ opc = 29)
     (h : fetchCase l constraint pt d opc pos ps = .ok (b, ts)) (hf : lastFail ts = none) : 0 ≤ d.outIndex ∧ d.outIndex < (d.outLength : Int) := by
   have hm := lastFail_none_mem _ hf
   apply badContext_false
-  rcases ho with rfl | rfl | rfl | rfl | rfl | rfl | rfl
+  rcases ho with rfl | rfl | rfl | rfl | rfl | rfl | rfl | rfl | rfl
   all_goals
     simp only [fetchCase, bind, Except.bind, pure, Except.pure] at h
     simp (config := { decide := true }) only [if_false, if_true, Nat.reduceEqDiff, Nat.reduceLeDiff, false_and, and_false, false_or, or_false, true_and, and_true, ite_false, ite_true] at h
@@ -376,7 +376,7 @@ theorem stepOp_cur (l : Limits) (pt : Nat) (bc : List Nat) (pos : Nat) (d : Dec)
         unfold curStep
         simp only []
         rw [if_neg hnx, if_neg hin, if_neg hde]
-        by_cases hcx : opc = 33 ∨ opc = 59 ∨ opc = 56 ∨ opc = 35 ∨ opc = 36 ∨ opc = 37 ∨ opc = 38
+        by_cases hcx : opc = 33 ∨ opc = 59 ∨ opc = 56 ∨ opc = 35 ∨ opc = 36 ∨ opc = 37 ∨ opc = 38 ∨ opc = 28 ∨ opc = 29
         · obtain ⟨c1, c2⟩ := fetchCase_context l false pt d opc pos _ b1 tests hcx h3 hlf
           rw [if_pos hcx, if_pos (by rw [hc.idx, hc.len]; exact ⟨c1, c2⟩)]
         · rw [if_neg hcx]
